@@ -1,12 +1,14 @@
 use crate::engine::{PropertyDef, Tier};
 
 pub mod c01;
+pub mod c16;
 
 pub fn property(id: &str, tier: Tier) -> Option<PropertyDef> {
 	match id {
 		"C01" => Some(c01::def(tier)),
+		"C16" => Some(c16::def(tier)),
 		_ => None,
 	}
 }
 
-pub const ALL: &[&str] = &["C01"];
+pub const ALL: &[&str] = &["C01", "C16"];
